@@ -106,6 +106,11 @@ func NewConfig(prop string, tier string, r *core.Rand) Config {
 	case "C09":
 		c.PGarbage = 0.3
 		c.Followers = r.Intn(2)
+		c.PRestart = []float64{0, 0.1}[r.Intn(2)]
+		if r.Chance(0.5) {
+			c.NVals = r.Range(3, 5)
+			c.NActors = c.NVals + r.Range(3, 6)
+		}
 		c.Noisy = true
 		c.SideMean = 0.8
 		c.QueryMean = 0.5
@@ -425,7 +430,7 @@ func (g *Generator) mutation(kind string) *Mutation {
 	mu := &Mutation{Field: f}
 	switch f {
 	case "sig":
-		mu.How = []string{"flip", "trunc", "v", "malleate", "other", "empty"}[g.r.Intn(6)]
+		mu.How = []string{"flip", "trunc", "v", "malleate", "other", "empty", "reuse", "reuse"}[g.r.Intn(8)]
 	case "payload":
 		mu.How = []string{"", "msg", "opt", "apply", "period", "hash", "url"}[g.r.Intn(7)]
 	case "amount", "nonce":
@@ -640,8 +645,37 @@ func (g *Generator) intent(h int64) Intent {
 	return it
 }
 
+// hostileValid: a well-formed, correctly signed tx of a funded sender with unusual field values.
+func (g *Generator) hostileValid(h int64) Intent {
+	ds := g.delegateeActors()
+	hexOf := func(n int) *string { s := hex.EncodeToString(g.r.Bytes(n)); return &s }
+	switch g.r.Intn(7) {
+	case 0:
+		return Intent{Kind: "setdoc", Actor: g.richActor(), Name: "", URL: ""}
+	case 1:
+		it := Intent{Kind: "unstake", Actor: g.richActor(), Stake: -1, IDHex: hexOf([]int{0, 0, 1, 31, 33, 64}[g.r.Intn(6)])}
+		if len(ds) > 0 {
+			it.To = fmt.Sprintf("a%d", ds[g.r.Intn(len(ds))])
+		}
+		return it
+	case 2:
+		return Intent{Kind: "vote", Actor: g.richActor(), Prop: -1, IDHex: hexOf([]int{0, 0, 5, 33}[g.r.Intn(4)]), Choice: int32(g.r.Intn(3)) - 1}
+	case 3:
+		return Intent{Kind: "withdraw", Actor: g.richActor(), Amt: []string{"0", "2^255", "2^256-1"}[g.r.Intn(3)]}
+	case 4:
+		return Intent{Kind: "proposal", Actor: g.richActor(), Start: 1, Period: g.w.M.Gov.MinVotingPeriodBlocks, Opts: [][]string{{}, {""}, {"{"}, {"[]"}, {"{\"gasPrice\":-1}"}, {"{\"gasPrice\":{}}"}, {"null"}}[g.r.Intn(7)]}
+	case 5:
+		return Intent{Kind: "call", Actor: g.richActor(), To: "z", Data: ""}
+	default:
+		return Intent{Kind: "deploy", Actor: g.richActor(), Data: "", Gas: "n:100000"}
+	}
+}
+
 func (g *Generator) garbage(h int64) Intent {
 	w := g.w
+	if g.r.Chance(0.3) {
+		return g.hostileValid(h)
+	}
 	switch g.r.Intn(6) {
 	case 0:
 		return Intent{Kind: "raw", Raw: hex.EncodeToString(g.r.Bytes(g.r.Range(0, 80)))}
